@@ -174,6 +174,12 @@ class Checker:
                     and roles[1].kind in ("arr",):
                 self.note(roles[0].axis == roles[1].axis, "name-array-pair", show(canon(t[1][0])),
                           "(dimension name, coordinate array) pair: %s" % roles)
+            # a point (easting_k, northing_k) assembled from parallel arrays must take both values at the same position
+            if len(t[1]) == 2 and all(x[0] == "sub" and is_int(x[2]) and x[1][0] == "sub" and is_int(x[1][2]) for x in t[1]):
+                (e_, n_) = t[1]
+                if e_[1][1] == n_[1][1] and e_[1][2] != n_[1][2] and isinstance(roles[0], A) and isinstance(roles[1], A) and {roles[0].axis, roles[1].axis} == {"E", "N"}:
+                    self.note(e_[2] == n_[2], "point-index-alignment", show(canon(e_[1][1]))[:50],
+                              "point built from position %s of the %s array and position %s of the %s array" % (e_[2][1], roles[0].axis, n_[2][1], roles[1].axis))
             out, rest = [], None
             for e, r in zip(t[1], roles):
                 if e[0] == "star":
